@@ -399,7 +399,6 @@ class Python311InstrumentationInstructionsGenerator(
                 | InstrumentationSetupAction.COPY_SECOND
                 | InstrumentationSetupAction.COPY_SECOND_SHIFT_DOWN_TWO
                 | InstrumentationSetupAction.COPY_SECOND_SHIFT_DOWN_THREE
-                | InstrumentationSetupAction.COPY_THIRD_SHIFT_DOWN_THREE
                 | InstrumentationSetupAction.COPY_THIRD_SHIFT_DOWN_FOUR
                 | InstrumentationSetupAction.ADD_FIRST_TWO
                 | InstrumentationSetupAction.ADD_FIRST_TWO_REVERSED
@@ -408,6 +407,15 @@ class Python311InstrumentationInstructionsGenerator(
                 # of the method call.
                 return (
                     cf.ArtificialInstr("POP_TOP", lineno=lineno),
+                    cf.ArtificialInstr("POP_TOP", lineno=lineno),
+                )
+            case InstrumentationSetupAction.COPY_THIRD_SHIFT_DOWN_THREE:
+                # The overridden instruction (BINARY_SLICE) pushed its result above the value
+                # we copied in the setup. We need to remove the return value of the method
+                # call and the copied value, but we must keep the result.
+                return (
+                    cf.ArtificialInstr("POP_TOP", lineno=lineno),
+                    cf.ArtificialInstr("SWAP", 2, lineno=lineno),
                     cf.ArtificialInstr("POP_TOP", lineno=lineno),
                 )
             case _:
